@@ -45,6 +45,25 @@ CLAIMED = {
             "restarted, next time strictly in the future, at most one period ahead, and at least one period after the "
             "previously scheduled time; first run honours deferred_until.",
             "cron excluded (croniter absent); delivery latency not decided."),
+    "C09": ("deductive verification of _run_consumer/_task_callback with a monitor invariant over the semaphore and ghost "
+            "counters, checked at every await (yield points) and stable under the declared rely",
+            "Proof that in-flight processing tasks = limit - semaphore value - reserved slots at every await and after "
+            "every done-callback, hence never more than tasks_limit; every spawn is dominated by one acquire; the "
+            "callback releases exactly once and never raises.",
+            "asyncio Semaphore/Event/Task by assumed contracts; cooperative scheduling (switch only at await); "
+            "liveness clauses (resume, never stalls, eventually executed) are not decided."),
+    "C10": ("deductive verification of max_tasks_hit, _task_callback, _run_consumer loop invariant started <= max_tasks, "
+            "run_one_queue (stop event cancels consumption)",
+            "Proof of the limit formula, of 'stop event set exactly when the limit is hit' in the done-callback and of "
+            "run_one_queue ending consumption; the loop invariant 'started <= M' FAILS on the tree (known finding F10).",
+            "Termination ('returns once those M have finished') not decided; RunWorkerOnEnqueueModifier not under contract."),
+    "C20": ("deductive verification of handle_request (z3 strings) and data_received for all byte strings, status "
+            "getter/setter, run_one_queue's status flip",
+            "Proof that the status line/body/Content-Length are those of '<code> <NAME>' for GET on the endpoint and "
+            "'404 Not Found' otherwise; that data_received either writes once then closes or raises a ValueError "
+            "before writing, never touching the status; that the runner only ever flips OK->UNHEALTHY, and only for a "
+            "failed consumer task.",
+            "Sockets, create_server, many connections and fragmentation are outside the subset (assumed asyncio behaviour)."),
 }
 NOT_APPLICABLE_REASON = "check not built yet (work in progress; see DESIGN.md section 5 for the planned contracts)"
 
